@@ -5,6 +5,7 @@ import (
 	"verif/props/c04"
 	"verif/props/c06"
 	"verif/props/c09"
+	"verif/props/c10"
 	"verif/props/c11"
 	"verif/props/c18"
 	"verif/props/c19"
@@ -15,6 +16,7 @@ func init() {
 	props["C04"] = prop{c04.Run, c04.Replay}
 	props["C06"] = prop{c06.Run, c06.Replay}
 	props["C09"] = prop{c09.Run, c09.Replay}
+	props["C10"] = prop{c10.Run, c10.Replay}
 	props["C11"] = prop{c11.Run, c11.Replay}
 	props["C18"] = prop{c18.Run, c18.Replay}
 	props["C19"] = prop{c19.Run, c19.Replay}
